@@ -1,3 +1,4 @@
+@staticmethod
 def spec(value, dim, size, preserve_tail=True, fill=0):
     dim = int(dim)
     size = argtest.gte('size', size, 0, int)
